@@ -372,9 +372,36 @@ class EngineBase:
         return out
 
     # ------------------------------------------------------------ coercion (may allocate)
+    def any_token(self, st, v):
+        """Token of kind Any for a value: a function of the value (equal values get equal tokens)."""
+        from core import KAny, KStr, KName
+        if v is None:
+            return SVal(KAny, [z3.IntVal(0)])
+        if isinstance(v, LocalDict):
+            keys = sorted(v.d, key=str)
+            toks = [self.any_token(st, v.d[k_]).z for k_ in keys]
+            f = self.recfuncs.setdefault(('$any_dict', tuple(map(str, keys))),
+                                         z3.Function('any_dict_' + '_'.join(map(str, keys)), *([I] * len(keys) + [I])))
+            return SVal(KAny, [f(*toks)])
+        if isinstance(v, TupleVal):
+            toks = [self.any_token(st, x).z for x in v.items]
+            f = self.recfuncs.setdefault(('$any_tuple', len(toks)), z3.Function('any_tuple_%d' % len(toks), *([I] * len(toks) + [I])))
+            return SVal(KAny, [f(*toks) if toks else z3.IntVal(-1)])
+        v = ops.lift(v)
+        if isinstance(v, SVal) and len(v.t) == 1:
+            srt = v.z.sort()
+            if srt == I:
+                f = self.recfuncs.setdefault(('$any_of', v.kind.name), z3.Function('any_of_' + v.kind.name, I, I))
+                return SVal(KAny, [v.z if v.kind.name == 'Any' else f(v.z)])
+            f = self.recfuncs.setdefault(('$any_of', str(srt)), z3.Function('any_of_' + str(srt), srt, I))
+            return SVal(KAny, [f(v.z)])
+        raise CheckerError('cannot turn %r into an opaque token' % (v,))
+
     def coerce_to(self, st, v, kind):
         if isinstance(v, SVal) and v.kind == kind:
             return v
+        if getattr(kind, 'name', None) == 'Any' and not (isinstance(v, SVal) and v.kind.name == 'Any'):
+            return self.any_token(st, v)
         if isinstance(v, tuple) and v and isinstance(v[0], str) and v[0] in ('view', 'range', 'zip', 'enumerate') \
                 and isinstance(kind, KList):
             return self.materialize(st, self.Frame(None, 'coerce', None), v, kind.elem)
